@@ -53,6 +53,41 @@ class Check:
         return [o for o in self.obligations if o["status"] == "violation"]
 
 
+def evaluate(pid, tier, rules, crates, th, silent=False):
+    """first reading: the rules on the program as written.  If that reports violations, second reading: the same rules on the
+    normalised program (normalize.py: iterator chains -> loops, Option combinators / two-arm matches -> if let, guard clauses ->
+    nested if).  The two programs are equivalent, so an obligation that holds on either reading holds; a violation is reported only
+    when the rule fails on both (same key).  Returns (check, program, {rewrite: count} or None)."""
+    from . import normalize
+    P = ir.Program(crates, th)
+    ck = Check(pid, tier, silent=silent)
+    rules(ck, P)
+    applied = None
+    if ck.violations() and not os.environ.get("VT_NO_NORMALISE"):
+        try:
+            # two normalised readings: with and without turning guard clauses into nested if/else (rules written against guard
+            # clauses read the first, rules written against nested branches the second)
+            for guard in (False, True):
+                if not ck.violations():
+                    break
+                crates_n, app = normalize.normalise_program(crates, guard=guard)
+                if not app:
+                    continue
+                applied = dict(applied or {}, **app)
+                ckn = Check(pid, tier, silent=True)
+                rules(ckn, ir.Program(crates_n, th))
+                nk = {v["key"] for v in ckn.violations()}
+                for o in ck.obligations:
+                    if o["status"] == "violation" and o["key"] not in nk:
+                        o["status"] = "ok"
+                        o["what"] = "[holds on the normalised reading of the program; first reading said: %s]" % o["what"]
+                        o["normalised"] = True
+        except Exception as e:   # the second reading can only discharge; if it breaks, the first reading stands
+            ck.note("normalised reading failed (%s: %s); first reading reported as is" % (type(e).__name__, str(e)[:120]))
+            applied = None
+    return ck, P, applied
+
+
 def load_known():
     p = os.path.join(VERIF, "known_findings.json")
     if not os.path.exists(p):
@@ -166,10 +201,8 @@ def run_seeded(pid, rules, base_keys, only=None):
             except facts.BrokenBuild as e:
                 out.append({"seed": os.path.basename(d), "result": "skipped (patched tree does not build: %s)" % str(e)[:80]})
                 continue
-            P2 = ir.Program(crates, th)
-            c2 = Check(pid, "thorough", silent=True)
             try:
-                rules(c2, P2)
+                c2, _, _ = evaluate(pid, "thorough", rules, crates, th, silent=True)
                 fired = [v["key"] for v in c2.violations() if v["key"] not in base_keys]
             except Exception as e:
                 fired = ["exception:" + type(e).__name__]
@@ -189,18 +222,17 @@ def run(pid, rules, mutants=None, *, level="other", explanation="", not_decided=
     except facts.BrokenBuild as e:
         print("BROKEN-BUILD property=%s: %s" % (pid, e))
         sys.exit(2)
-    P = ir.Program(crates, th)
-    ck = Check(pid, tier)
-    rules(ck, P)
+    ck, P, applied = evaluate(pid, tier, rules, crates, th)
+    if applied:
+        ck.note("second reading used: rewrites applied %s; %d obligation(s) hold only on the normalised reading"
+                % (applied, sum(1 for o in ck.obligations if o.get("normalised"))))
 
     # second configuration (no default features) in the thorough tier
     cfg2 = None
     if tier == "thorough" and extra_cfg:
         try:
             crates2, _ = facts.load(config="nodefault")
-            P2 = ir.Program(crates2, th)
-            ck2 = Check(pid, tier, silent=True)
-            extra_cfg(ck2, P2)
+            ck2, P2, _ = evaluate(pid, tier, extra_cfg, crates2, th, silent=True)
             cfg2 = {"obligations": len(ck2.obligations), "violations": len(ck2.violations())}
             main_viol = {o["key"] for o in ck.obligations if o["status"] == "violation"}
             for v in ck2.violations():
